@@ -53,8 +53,9 @@ def make_inputs(d, rng_seed, nsamp=3, chroms=("1", "2"), dup_info=False):
                 f.write(f"{s}\t{p}\n")  # sample-info files assembled from several lists name some samples twice
     # simphenotype inputs
     snps = [(f"rs{j}", "1", 10 * (j + 1), ["A", "C"]) for j in range(6)]
-    sdata = [[(rnd.randint(0, 1), rnd.randint(0, 1), 1) for _ in snps] for _ in range(12)]
-    GF.write_vcf_text(d / "gts.vcf", [f"s{i}" for i in range(12)], snps, sdata)
+    sdata = [[(rnd.randint(0, 1), rnd.randint(0, 1), 1) for _ in snps] for _ in range(60)]
+    sdata = [row[:5] + [(0, 0, 1)] for row in sdata]  # the last SNP is monomorphic in this cohort: a constant causal variable
+    GF.write_vcf_text(d / "gts.vcf", [f"s{i}" for i in range(60)], snps, sdata)
     with open(d / "eff.snplist", "w") as f:
         for j in range(6):
             f.write(f"rs{j}\t{0.1 * (j + 1):.1f}\n")
@@ -192,6 +193,9 @@ def impl_inproc(case):
                 if k == 1 and case.get("printopts"):
                     # whatever ran earlier may have changed numpy's process-wide print settings (a common notebook habit)
                     np.set_printoptions(suppress=True, precision=3, sign=" ", floatmode="fixed", linewidth=40, threshold=5)
+                # … and arbitrary prior use of the allocator: matrices of the sizes a dosage matrix has, filled and dropped
+                junk = [np.full((60, w), 7.5e5 * (k + 1) + w, dtype=np.float64) for w in range(1, 8)]
+                del junk
                 o = d / f"ph{k}.pheno"
                 # the same integer, as a Python int in one run and as a numpy integer in the other (what a seed taken from an array is)
                 sd = case["seed"] if k == 0 else [np.int64, np.uint32, np.uint64][ci % 3](case["seed"])
